@@ -496,12 +496,8 @@ class QueueWorld(object):
             return ds.DiskStorage('/q/env', '/q/meta', '/q/tmp')
         if b == 'redis':
             import slimta.redisstorage as rs
-            from fakes.fakeredis import FakeRedis
-            st = object.__new__(rs.RedisStorage)
-            QueueStorage.__init__(st)
-            st.redis = FakeRedis()
-            st.prefix = 'slimta:'
-            st.queue_key = 'slimta:queue'
+            from fakes.fakeredis import make_storage
+            st, _fake = make_storage(w, prefix=self.cfg.get('redis_prefix', 'slimta:'))
             self.fake_redis = st.redis
             cmds = set(self.cfg.get('redis_yields', ()))
             if cmds:
